@@ -58,7 +58,16 @@ func (e *Env) builtin(x *ast.CallExpr, name string, rt types.Type) Value {
 		r := e.tmp(Ite(pv, payload, App("nilU", SU)))
 		e.assign("$panic", SBool, False)
 		return Value{K: VU, T: r, Typ: rt}
-	case "real", "imag", "complex":
+	case "real", "imag":
+		// the two parts of a complex value: functions of it
+		if len(x.Args) == 1 {
+			if v := e.expr(x.Args[0]); v.K == VU {
+				return Value{K: VU, T: App("cplx$"+name, SU, v.T), Typ: rt}
+			}
+			return e.unknown(rt, name)
+		}
+		fallthrough
+	case "complex":
 		for _, a := range x.Args {
 			e.expr(a)
 		}
